@@ -205,6 +205,11 @@ pub fn check_program(prog: &Program, seed: u64, thorough: bool, rep: &mut Report
 }
 
 pub fn run(p: &Params, rep: &mut Report) {
+    {
+        // fixed powers of character ranges with exponents next to 2^8, 2^10, 2^12, 2^16: analytic answers
+        let mut rng = p.rng(0x1616);
+        super::ladder::powers_inclusion(rep, p.size(60, 600), &mut rng, p.seed);
+    }
     let n = p.size(600, 6000);
     let w = [(Profile::Patterns, 60), (Profile::Boolean, 10), (Profile::Boundary, 10), (Profile::Mixed, 20)];
     for_programs(p, rep, 16, n, &w, (25, 45), |prog, seed, rep| check_program(prog, seed, p.thorough, rep));
